@@ -446,6 +446,12 @@ add("v3000_star_bonds_share_dict_and_written", [(V3, "            bonds[t] = bon
     (V3, "    _validate_bond_indices(bond_attrs, atom_attrs)", "    _validate_bond_indices(bond_attrs, atom_attrs)\n    for bond, attrs in bond_attrs.items():\n        attrs[\"first_atom\"] = bond[0]")],
     fires={"R-ALIAS"}, note="the shared record is written to per bond: every expanded bond ends up with the last value")
 
+add("v3000_endpts_search_untested", (V3, """    if endpts_match is None:
+        # silently ignore everything that has no ENDPTS (e.g. use of star atoms in polymers)
+        return []
+""", ""), fires={"R-NONECHECK"}, note="a star-atom bond without ENDPTS ends in AttributeError")
+add("v3000_endpts_search_tested_by_truth", (V3, "    if endpts_match is None:", "    if not endpts_match:"), silent=True)
+
 # ---------------------------------------------------------------- spelling of the attribute names
 GA = "tucan/graph_attributes.py"
 add("attribute_names_respelled", [(GA, 'MASS = "mass"', 'MASS = "isotope_mass"'), (GA, 'CHG = "chg"', 'CHG = "formal_charge"'), (GA, 'BOND_TYPE = "bond_type"', 'BOND_TYPE = "order"'),
